@@ -106,6 +106,8 @@ def _pad_args(c):
     kw = {'out_shape': _shape_arg(c['out'], c.get('outform', 'tuple')), 'mode': c['mode']}
     if c.get('value') is not None:
         kw['value'] = _val(c['value'])
+    if c.get('Q') is not None:
+        kw['Q'] = c['Q']                     # out_shape overrides Q, whatever Q is (Q = 1 included)
     return a, kw
 
 
@@ -114,7 +116,7 @@ def _p_pad(c, want_out=False):
     ft = _impl()[0]
     a, kw = _pad_args(c)
     if c.get('call') == 'positional':
-        r = _pure(lambda arr: ft.pad2d(arr, 2, kw.get('value', 0), kw['mode'], kw['out_shape']), a)
+        r = _pure(lambda arr: ft.pad2d(arr, kw.get('Q', 2), kw.get('value', 0), kw['mode'], kw['out_shape']), a)
     else:
         r = _pure(ft.pad2d, a, **kw)
     out, problem = r
@@ -366,6 +368,14 @@ def _p_slices(c):
         m, n = c['shape2']
         a = _marked((m, n))
         r.data = a
+    if c.get('user_origin') is not None:
+        # user-assigned coordinates: the slices follow the zero of the coordinates the user supplied
+        r0, c0 = c['user_origin']
+        r.x, r.y = np.meshgrid((np.arange(n) - c0) * abs(c['dx']), (np.arange(m) - r0) * abs(c['dx']))
+        s = r.slices(twosided=True)
+        if not (np.array_equal(s.x[1], a[r0, :]) and np.array_equal(s.y[1], a[:, c0])):
+            return f'slices do not pass through the zero {(r0, c0)} of the user-assigned coordinates'
+        return None
     s = r.slices() if c.get('twosided', True) is None else r.slices(twosided=c.get('twosided', True))
     (ux, sx), (uy, sy) = s.x, s.y
     if c.get('twosided', True) in (True, None):
@@ -417,6 +427,8 @@ def _p_wf_pad(c):
     if (w2.dx, w2.wavelength, w2.space) != (0.25, 0.55, c.get('space', 'pupil')):
         return f'dx / wavelength / space of the result are {(w2.dx, w2.wavelength, w2.space)}'
     M, N = want.shape
+    if c.get('out') is not None and (M, N) != ((c['out'][0],) * 2 if c.get('outform') == 'int' else tuple(c['out'])):
+        return f'padded wavefront has shape {(M, N)}, requested out_shape {c["out"]}'
     if w2.data[M // 2, N // 2] != a[a.shape[0] // 2, a.shape[1] // 2]:
         return 'origin sample not on the origin of the padded wavefront'
     return None
@@ -561,6 +573,53 @@ def _p_foreign(c):
     return None
 
 
+# ---- inventory of array centres / shift pairings written with another formula elsewhere in prysm ----------------------
+REVIEWED_SITES = {
+    # (file, function, kind): how it is covered
+    ('prysm/segmented.py', '_composite_hexagonal_aperture', 'ceil-half'): "predicate foreign_origin/hex (window centre only; masks use true coordinates)",
+    ('prysm/segmented.py', '_composite_keystone_aperture', 'ceil-half'): "predicate foreign_origin/keystone",
+    ('prysm/x/shack_hartmann.py', 'shack_hartmann', 'ceil-half'): "predicate foreign_origin/shack_hartmann",
+    ('prysm/interferogram.py', 'psd', 'same-shift-both-sides'): "predicate foreign_origin/psd (input-side shift only changes the phase, |.|^2 is taken)",
+    ('prysm/interferogram.py', 'synthesize_surface_from_psd', 'same-shift-both-sides'): "predicate foreign_origin/synth (inner ifftshift is the un-centring; outer one rotates a random surface)",
+}
+
+
+def origin_inventory(repo):
+    """(file, function, kind, text) of every `ceil(<..shape..>/2)` and every fftshift/ifftshift applied on BOTH sides of an
+    FFT with the same direction, anywhere under prysm/ (AST walk; informational, never red by itself)"""
+    import ast
+    import os
+
+    def last(e):
+        return ast.unparse(e).split('.')[-1]
+    sites = set()
+    for root, _, files in os.walk(os.path.join(repo, 'prysm')):
+        for f in files:
+            if not f.endswith('.py'):
+                continue
+            path = os.path.join(root, f)
+            try:
+                mod = ast.parse(open(path).read())
+            except Exception:
+                continue
+            rel = os.path.relpath(path, repo)
+            for fn in [n for n in ast.walk(mod) if isinstance(n, ast.FunctionDef)]:
+                for n in ast.walk(fn):
+                    if not isinstance(n, ast.Call) or not n.args:
+                        continue
+                    a0 = n.args[0]
+                    if last(n.func) == 'ceil' and isinstance(a0, ast.BinOp) and isinstance(a0.op, ast.Div) \
+                            and isinstance(a0.right, ast.Constant) and a0.right.value == 2 and 'shape' in ast.unparse(a0.left):
+                        sites.add((rel, fn.name, 'ceil-half', ast.unparse(n)))
+                    if last(n.func) in ('fftshift', 'ifftshift'):
+                        for c in ast.walk(a0):
+                            if isinstance(c, ast.Call) and last(c.func) in ('fft2', 'ifft2', 'fft', 'ifft', 'fftn', 'ifftn'):
+                                for d in (d for a in c.args for d in ast.walk(a)):
+                                    if isinstance(d, ast.Call) and last(d.func) == last(n.func):
+                                        sites.add((rel, fn.name, 'same-shift-both-sides', ast.unparse(n)[:90]))
+    return sorted(sites)
+
+
 # ---- known finding: stale RichData coordinates after .data was replaced by another shape ------------------------------
 def _stale_witness():
     C.import_prysm()
@@ -679,6 +738,8 @@ def correspondence(ctx):
             {'outform': 'int', 'mode': 'edge', 'value': None},
             {'outform': 'list', 'mode': 'constant', 'value': '1.5'},
             {'outform': 'tuple', 'mode': 'constant', 'value': None},
+            {'outform': 'tuple', 'mode': 'constant', 'value': '0', 'Q': 1},
+            {'outform': 'int', 'mode': 'wrap', 'value': None, 'Q': 1.0},
             {'outform': 'tuple', 'mode': 'constant', 'value': '0', 'call': 'positional'},
             {'outform': 'tuple', 'mode': 'constant', 'value': '3', 'dtype': 'int64'},
             {'outform': 'tuple', 'mode': 'constant', 'value': '0', 'dtype': 'int64'},
@@ -778,6 +839,7 @@ def correspondence(ctx):
             _run_pred(ctx, 'slices', {'shape': [m, n], 'dx': dx, 'twosided': two}, nontrivial=nt, tag=f'par{m % 2}{n % 2}')
         _run_pred(ctx, 'slices', {'shape': [m, n], 'dx': dx, 'history': 'replace_other_after_read', 'shape2': other_shape},
                   nontrivial=nt, tag='replace_other_after_read')
+        _run_pred(ctx, 'slices', {'shape': [m, n], 'dx': dx, 'user_origin': [(2 * m) // 3, n // 4]}, nontrivial=nt, tag='user_xy')
     for t, (m, n, p, q, dx) in enumerate(cen_pts):
         ey, ex = (float(Fraction(v)) for v in M[f'centroid {m} {n} {p} {q} {rat(dx)}'].split())
         extra = [{}, {'dtype': 'int64'}, {'dtype': 'float32'}, {'layout': 'T'}, {'call': 'positional'}][t % 5]
@@ -823,6 +885,11 @@ def correspondence(ctx):
             _run_pred(ctx, 'wavefront_crop', {'in': [m, n], 'out': out, **v}, nontrivial=m > 1 and n > 1, tag=f'inplace{v.get("inplace")}')
 
     # ---------------- array centres computed elsewhere with another formula still land on n//2 (odd and even sizes)
+    sites = origin_inventory(C.REPO)
+    new = sorted({s_[:3] for s_ in sites} - set(REVIEWED_SITES))
+    ctx.notes.append(f'origin inventory: {len(sites)} expressions at {len({s_[:3] for s_ in sites})} sites; unreviewed: {new}')
+    if new:
+        print(f'NOTE: C04 origin inventory found sites without an executed predicate: {new}')
     for (m, n) in ((31, 31), (32, 32), (31, 34), (34, 31), (33, 35)) + (((45, 45), (46, 47)) if ctx.thorough else ()):
         for what in ('hex', 'keystone', 'shack_hartmann'):
             _run_pred(ctx, 'foreign_origin', {'what': what, 'shape': [m, n]}, tag=f'{what}/par{m % 2}{n % 2}')
@@ -995,6 +1062,42 @@ def replay(inp):
 
 MANIFEST_ENTRY = {
     'technique': 'Lean 4 proof (omega / ring over translator-generated terms) + exhaustive small-scope correspondence',
-    'text': '',   # filled in below
-    'note': '',
+    'text': ('PROVED by the Lean kernel for every axis length, target length, spacing and position (no bound), over terms that the '
+             'translator re-reads from the current prysm source on every run (an edit to the source changes the definitions the '
+             'kernel re-checks; statements are semantic and proofs end in omega / ring, so equivalent rewrites still pass): '
+             '(1) fftrange(n) has n samples, index n//2 lies in [0, n) and holds the only zero (unique argmin of |x|); '
+             '(2) make_xy_grid, read as a whole (generator element, (y, x) unpack order, meshgrid argument / result order, '
+             'grid=False route, scalar shape, diameter=): x[i,j] = (j - n//2) dx whatever i and m, y[i,j] = (i - m//2) dx whatever '
+             'j and n, zero exactly on column n//2 / row m//2 (and only there when dx != 0); '
+             '(3) forward_ft_unit, composed of the constants of NumPy\'s own fftfreq / fftshift source (also translated): sample i '
+             'is i - n//2 (shift=True), zero at index 0 and FFT order for shift=False; '
+             '(4) pad2d (np.pad widths and constant-mode slice) and crop_center: the origin sample lands on the origin of the new '
+             'array, the block stays in bounds, widths are non-negative, an integer out_shape means every axis, crop undoes pad '
+             'sample for sample in 1-D and in 2-D with per-axis different targets, default length is ceil(n Q); '
+             '(5) RichData.x / .y hand out the first / second array of make_xy_grid(data.shape, dx), slices() passes row 0 of x / '
+             'column 0 of y, and for EVERY function meeting the specification of np.argmin(abs(v)) and every dx != 0 the centre '
+             'found by Slices is (m//2, n//2): two-sided slices are row m//2 / column n//2, one-sided ones start at the origin '
+             'sample, its coordinate is exactly 0; '
+             '(6) centroid subtracts n//2 per axis in zip order and scales by dx, unit=pixels returns the centre of mass; the '
+             'centre of mass (first moment / total, as 2-D sums) of a point source at (p, q) is (p, q), so it reads '
+             '((p - m//2) dx, (q - n//2) dx); '
+             '(7) Wavefront.pad2d / crop bind every argument of fttools.pad2d / crop_center to its namesake and store / return the '
+             'result (three-valued AST fact: unrecognised spelling degrades the tie, a wrong binding fails). '
+             'COMPARED ONLY (bounded enumeration on the real functions, integer-exact where integers are involved): NumPy plumbing '
+             '(slicing, 12 np.pad modes and fill values, meshgrid, roll, argmin and center_of_mass in floating point) for all (n, N) '
+             'up to 40 (quick) / 128 (thorough); integer / list / tuple out_shape, Q = 1 with out_shape, int64 / float32 / '
+             'complex128 data, transposed and strided inputs up to 10 / 20; grids, frequency axes up to 130 / 600; RichData.x / .y '
+             '/ slices and centroids (spatial and pixels) up to 9x9 / 14x14; Wavefront return objects (identity, dx, wavelength, '
+             'space); focus / unfocus FFT route up to 11x11 / 23x23; requests that shrink an axis through pad2d raise ValueError '
+             '(all shapes up to 5 / 7); re-requested grids after in-place edits of earlier results; array centres written as '
+             'ceil(n/2) in segmented.py / x/shack_hartmann.py and the shift pairs of interferogram.psd / '
+             'synthesize_surface_from_psd still centre on n//2 for odd sizes (7 shapes / up to 9x9). '
+             'NOT COVERED: dx = 0 (degenerate all-zero grid: Slices then takes index 0); Slices.azavg / exact_x / exact_y; '
+             'psf.autocrop; non-NumPy backends; config.precision = float32 is tolerated by the comparisons but not swept.'),
+    'note': ('Trusted: Lean kernel + propext/Classical.choice/Quot.sound; the ast->Lean translator (tools/gen_c04.py: its reading '
+             'of comprehensions, tuple unpacking, np.meshgrid(xy) and subscript forms is validated by executing model vs code on '
+             'the exhaustive small domain each run); NumPy slicing / np.pad / np.roll / np.argmin and scipy.ndimage.center_of_mass '
+             'semantics; dx scaling is one floating-point product per sample (compared at 4 eps). Known finding '
+             'richdata-stale-xy: RichData caches x / y at first read and keeps them when .data is later replaced by an array of '
+             'another shape (filtered exactly; not repaired because Interferogram.crop reads the stale grid on purpose).'),
 }
